@@ -4,6 +4,7 @@
 #include <fcntl.h>
 #include <malloc.h>
 #include <signal.h>
+#include <sys/mman.h>
 #include <sys/personality.h>
 #include <unistd.h>
 
@@ -14,6 +15,7 @@
 #include <cstdlib>
 #include <cstring>
 #include <map>
+#include <new>
 #include <set>
 #include <string>
 #include <vector>
@@ -23,6 +25,8 @@
 #include "vsim_rt.h"
 
 namespace sd {
+inline void sd_reserve_fixed_heap();
+inline void sd_activate_fixed_heap();
 
 struct Rng {
   uint64_t s;
@@ -173,6 +177,7 @@ inline void on_signal(int sig, siginfo_t*, void*) {
   _exit(128 + sig);
 }
 inline void install_handlers() {
+  sd_activate_fixed_heap();   // every driver calls this after it has parsed its arguments and before it touches the code under test
   static char altstack[1 << 16];
   stack_t ss{}; ss.ss_sp = altstack; ss.ss_size = sizeof altstack; sigaltstack(&ss, nullptr);
   struct sigaction sa{}; sa.sa_sigaction = on_signal; sa.sa_flags = SA_SIGINFO | SA_ONSTACK | SA_NODEFER;
@@ -190,6 +195,7 @@ inline void no_aslr(char** argv) {
   if (p != -1 && !(p & ADDR_NO_RANDOMIZE)) {
     if (personality(p | ADDR_NO_RANDOMIZE) != -1 && !getenv("VSIM_NOREEXEC")) { setenv("VSIM_NOREEXEC", "1", 1); execv("/proc/self/exe", argv); }
   }
+  sd_reserve_fixed_heap();
 }
 
 // ------------------------------------------------------------------ caching allocator for mju_malloc
@@ -207,18 +213,48 @@ extern "C" void __tsan_release(void*);
 #define SD_TSAN_ACQ(p) ((void)0)
 #define SD_TSAN_REL(p) ((void)0)
 #endif
+// Backing store with addresses that depend only on the sequence of requests made by the code under test: one region reserved
+// before the command line is parsed (address space randomisation is off, so the kernel places it at the same address in every
+// process), handed out by a bump pointer once the harness has finished its own start-up allocations.  Needed because some code
+// under test keeps objects in containers keyed or hashed by pointer (the asset cache's unordered_set<mjCAsset*>): the number of
+// basic blocks it executes - and with it the position of every later preemption - then depends on heap addresses, and those moved
+// with the length of the harness's own arguments (--faildir, --dec ...), which made a replay diverge from the recorded run.
+struct FixedHeap {
+  static inline char* base = nullptr;
+  static inline size_t top = 0;
+  static inline bool active = false;
+  static constexpr size_t kSize = (size_t)24 << 30;
+  static void reserve() {
+#ifndef VSIM_TSAN
+    void* p = mmap(nullptr, kSize, PROT_READ | PROT_WRITE, MAP_PRIVATE | MAP_ANONYMOUS | MAP_NORESERVE, -1, 0);
+    if (p != MAP_FAILED) base = (char*)p;
+#endif
+  }
+  static void activate() { if (base) active = true; }
+  __attribute__((no_sanitize("thread"), no_sanitize("coverage"))) static bool owns(const void* p) { return base && (const char*)p >= base && (const char*)p < base + kSize; }
+  __attribute__((no_sanitize("thread"), no_sanitize("coverage"), noinline)) static void* grab(size_t n) {
+    n = (n + 63) & ~(size_t)63;
+    if (!active || top + n > kSize) return aligned_alloc(64, n);
+    void* p = base + top; top += n; return p;
+  }
+};
 struct CacheAlloc {
   struct Hdr { size_t sz; Hdr* next; char pad[48]; };
   static_assert(sizeof(Hdr) == 64);
   static inline Hdr* bins[64];
   static inline bool poison_on_free = false;
+  static inline volatile int lock_ = 0;     // only ever contended by a thread that is not under the scheduler (none is expected)
+  __attribute__((no_sanitize("thread"), no_sanitize("coverage"))) static void lock() { while (__sync_lock_test_and_set(&lock_, 1)) {} }
+  __attribute__((no_sanitize("thread"), no_sanitize("coverage"))) static void unlock() { __sync_lock_release(&lock_); }
   __attribute__((no_sanitize("thread"), no_sanitize("coverage"))) static int bin(size_t n) { int b = 0; size_t c = 64; while (c < n) { c <<= 1; b++; } return b; }
   __attribute__((no_sanitize("thread"), no_sanitize("coverage"), noinline)) static void* alloc(size_t n) {
     int b = bin(n ? n : 1);
+    lock();
     Hdr* h = bins[b];
     if (h) { bins[b] = h->next; SD_TSAN_ACQ(&bins[b]); }
-    else { h = (Hdr*)aligned_alloc(64, sizeof(Hdr) + ((size_t)64 << b)); if (!h) return nullptr; }
+    else { h = (Hdr*)FixedHeap::grab(sizeof(Hdr) + ((size_t)64 << b)); if (!h) { unlock(); return nullptr; } }
     h->sz = n; h->next = nullptr;
+    unlock();
     return (char*)h + sizeof(Hdr);
   }
   __attribute__((no_sanitize("thread"), no_sanitize("coverage"), noinline)) static void release(void* p) {
@@ -226,10 +262,28 @@ struct CacheAlloc {
     Hdr* h = (Hdr*)((char*)p - sizeof(Hdr));
     int b = bin(h->sz ? h->sz : 1);
     if (poison_on_free) { size_t n = h->sz < 65536 ? h->sz : 65536; unsigned char* c = (unsigned char*)p; for (size_t i = 0; i < n; i++) c[i] = 0xFF; }   // use-after-free becomes visible garbage (NaN / -1)
+    lock();
     SD_TSAN_REL(&bins[b]);
     h->next = bins[b]; bins[b] = h;
+    unlock();
   }
 };
+inline void sd_reserve_fixed_heap() { FixedHeap::reserve(); }
+inline void sd_activate_fixed_heap() { FixedHeap::activate(); }
+// C++ allocations (the compiler's objects and containers, the thread pool, the scheduler's own bookkeeping) take the same route once
+// the fixed heap is active; blocks handed out before that (by the C library) are recognised by address and returned to it.
+#ifndef VSIM_TSAN
+#define SD_NEW_ATTR __attribute__((no_sanitize("coverage"), noinline))
+SD_NEW_ATTR inline void* sd_new(size_t n, size_t al) {
+  void* p = (FixedHeap::active && al <= 64) ? CacheAlloc::alloc(n) : (al > 16 ? aligned_alloc(al, (n + al - 1) / al * al) : malloc(n ? n : 1));
+  return p;
+}
+SD_NEW_ATTR inline void sd_delete(void* p) {
+  if (!p) return;
+  if (FixedHeap::owns(p)) { bool po = CacheAlloc::poison_on_free; CacheAlloc::poison_on_free = false; CacheAlloc::release(p); CacheAlloc::poison_on_free = po; }
+  else free(p);
+}
+#endif
 inline void use_caching_alloc() { mju_user_malloc = CacheAlloc::alloc; mju_user_free = CacheAlloc::release; }
 
 // ------------------------------------------------------------------ aggregated statistics
@@ -316,6 +370,28 @@ inline void run_end() {
   }
 }
 }  // namespace sd
+
+#ifndef VSIM_TSAN
+// replacement allocation functions (one translation unit per driver includes this header)
+void* operator new(std::size_t n) { void* p = sd::sd_new(n, 16); if (!p) throw std::bad_alloc(); return p; }
+void* operator new[](std::size_t n) { void* p = sd::sd_new(n, 16); if (!p) throw std::bad_alloc(); return p; }
+void* operator new(std::size_t n, const std::nothrow_t&) noexcept { return sd::sd_new(n, 16); }
+void* operator new[](std::size_t n, const std::nothrow_t&) noexcept { return sd::sd_new(n, 16); }
+void* operator new(std::size_t n, std::align_val_t a) { void* p = sd::sd_new(n, (size_t)a); if (!p) throw std::bad_alloc(); return p; }
+void* operator new[](std::size_t n, std::align_val_t a) { void* p = sd::sd_new(n, (size_t)a); if (!p) throw std::bad_alloc(); return p; }
+void* operator new(std::size_t n, std::align_val_t a, const std::nothrow_t&) noexcept { return sd::sd_new(n, (size_t)a); }
+void* operator new[](std::size_t n, std::align_val_t a, const std::nothrow_t&) noexcept { return sd::sd_new(n, (size_t)a); }
+void operator delete(void* p) noexcept { sd::sd_delete(p); }
+void operator delete[](void* p) noexcept { sd::sd_delete(p); }
+void operator delete(void* p, std::size_t) noexcept { sd::sd_delete(p); }
+void operator delete[](void* p, std::size_t) noexcept { sd::sd_delete(p); }
+void operator delete(void* p, std::align_val_t) noexcept { sd::sd_delete(p); }
+void operator delete[](void* p, std::align_val_t) noexcept { sd::sd_delete(p); }
+void operator delete(void* p, std::size_t, std::align_val_t) noexcept { sd::sd_delete(p); }
+void operator delete[](void* p, std::size_t, std::align_val_t) noexcept { sd::sd_delete(p); }
+void operator delete(void* p, const std::nothrow_t&) noexcept { sd::sd_delete(p); }
+void operator delete[](void* p, const std::nothrow_t&) noexcept { sd::sd_delete(p); }
+#endif
 
 extern "C" void vsim_fail_hook(const char* cls, const char* msg) { sd::write_fail_file(cls, msg); }
 // TSan-in-the-loop: any report is a violation of the run in progress
